@@ -49,6 +49,8 @@ import (
 	"verif/harness/internal/gate"
 )
 
+const connBase = 1000 // connection ids of the asynchronous subscribers (the synchronous call draws small ones from a global counter)
+
 const padSlots = 3 // subscriber slots of the trace specification (Trace_Subs cfg: NS)
 
 const padBase = 200 // an event payload is padBase+e bytes long: lets the sub.update.begin hook identify the event
@@ -59,6 +61,10 @@ type SubCfg struct {
 	Conn int    `json:"conn"`
 	// Fetch: the response plan has a nested fetch (fake data source = gate "ds.load") that runs for every event
 	Fetch bool `json:"fetch"`
+	// Rerr: rendering this subscriber's response fails (its authorizer refuses the field): the error is written instead of the message
+	Rerr bool `json:"rerr"`
+	// HookFail: the start-up hook of the data source fails for this subscriber
+	HookFail bool `json:"hookfail"`
 }
 
 type Step struct {
@@ -74,6 +80,8 @@ type Schedule struct {
 	KV    string   `json:"kv"` // how keys differ: "input" (trigger input), "hdr" (forwarded headers hash), "payload" (Context.InitialPayload)
 	FK    string   `json:"fk"` // how an "odd" filter is written: num-static num-var arr-var true-var false-var str-var
 	Start []string `json:"start"`
+	Hooks bool     `json:"hooks"` // the data source has start-up hooks (HookableSubscriptionDataSource)
+	Sync  bool     `json:"sync"`  // subscriber 1 uses the synchronous ResolveGraphQLSubscription (SubscriptionID 0, connection id of its own)
 	Steps []Step   `json:"steps"`
 	// NoPark: points that are only recorded in this run (a hook that sits inside a lock in the tree under test)
 	NoPark []string `json:"nopark"`
@@ -172,6 +180,25 @@ func (s source) Start(ctx *resolve.Context, headers http.Header, input []byte, u
 	}
 	r.ctl.Log("h.start", uint64(slot), ok, map[string]any{"z": z, "c": c})
 	return err
+}
+
+var errHook = errors.New("verif: start-up hook refused the subscription")
+
+// hookSource is the same fake with start-up hooks (HookableSubscriptionDataSource): the hook is a gate, its outcome is scripted per subscriber
+type hookSource struct{ source }
+
+func (s hookSource) SubscriptionOnStart(ctx resolve.StartupHookContext, input []byte) error {
+	slot, _ := ctx.Context.Value(slotKey{}).(int)
+	ok := uint64(1)
+	if slot >= 1 && slot <= len(s.r.sched.Subs) && s.r.sched.Subs[slot-1].HookFail {
+		ok = 0
+	}
+	s.r.ctl.At("h.hook", uint64(slot), ok, nil)
+	s.r.ctl.Log("h.hook.ret", uint64(slot), ok, nil)
+	if ok == 0 {
+		return errHook
+	}
+	return nil
 }
 
 // HashTriggerInput is the one of the real GraphQL data source: what identifies an upstream subscription is its business.
@@ -323,6 +350,20 @@ func triggerID(kv string, key int) uint64 {
 	return d.Sum64()
 }
 
+var errRender = errors.New("verif: authorizer failed while rendering")
+
+// refusing is an Authorizer whose object-field check fails: Resolve returns the error inside the update
+type refusing struct{}
+
+func (refusing) AuthorizePreFetch(ctx *resolve.Context, dataSourceID string, input json.RawMessage, coordinate resolve.GraphCoordinate) (*resolve.AuthorizationDeny, error) {
+	return nil, nil
+}
+func (refusing) AuthorizeObjectField(ctx *resolve.Context, dataSourceID string, object json.RawMessage, coordinate resolve.GraphCoordinate) (*resolve.AuthorizationDeny, error) {
+	return nil, errRender
+}
+func (refusing) HasResponseExtensionData(ctx *resolve.Context) bool                { return false }
+func (refusing) RenderResponseExtension(ctx *resolve.Context, out io.Writer) error { return nil }
+
 // nestedDS is the fake subgraph of the nested fetch; every call is the gate "ds.load" of the calling update goroutine.
 type nestedDS struct{ ctl *gate.Controller }
 
@@ -346,6 +387,10 @@ func oddFilter(fk string) *resolve.SubscriptionFilter {
 		return []resolve.TemplateSegment{{SegmentType: resolve.StaticSegmentType, Data: []byte(v)}}
 	}
 	field, segs := "par", static("1")
+	if fk == "err" {
+		// two arrays in one value: ErrInvalidSubscriptionFilterTemplate for every event that has the field
+		return &resolve.SubscriptionFilter{In: &resolve.SubscriptionFieldFilter{FieldPath: []string{"par"}, Values: []resolve.InputTemplate{{Segments: static("[1][2]")}}}}
+	}
 	switch fk {
 	case "num-var":
 		segs = varSegment("one")
@@ -387,6 +432,14 @@ func plan(src resolve.SubscriptionDataSource, ctl *gate.Controller, slot int, c 
 	if c.Filt == "odd" {
 		sub.Filter = oddFilter(fk)
 	}
+	if c.Filt == "err" {
+		sub.Filter = oddFilter("err")
+	}
+	if c.Rerr {
+		f := sub.Response.Data.Fields[0]
+		f.Info = &resolve.FieldInfo{Name: string(f.Name), ExactParentTypeName: "Subscription", ParentTypeNames: []string{"Subscription"}, NamedType: "String",
+			Source: resolve.TypeFieldSource{IDs: []string{"upstream"}, Names: []string{"upstream"}}, HasAuthorizationRule: true}
+	}
 	if c.Fetch {
 		fin := `{"method":"POST","url":"http://nested","body":{"query":"{n}"}}`
 		sub.Response.Fetches = resolve.Single(&resolve.SingleFetch{
@@ -418,6 +471,9 @@ func newCtx(parent context.Context, slot int, c SubCfg, kv string) *resolve.Cont
 	rc := resolve.NewContext(dctx)
 	rc.Request.ID = uint64(slot)
 	rc.ExecutionOptions.SendHeartbeat = true
+	if c.Rerr {
+		rc.SetAuthorizer(refusing{})
+	}
 	// the nested fetches of two subscribers are identical: without this the second one waits for the first (single flight, C11's subject)
 	rc.ExecutionOptions.DisableSubgraphRequestDeduplication = true
 	rc.Variables = astjson.MustParseBytes([]byte(filterVariables))
@@ -519,14 +575,11 @@ func (w *soloWriter) Error([]byte)                {}
 
 var parkPoints = map[string]bool{
 	"sub.close.begin": true, "sub.complete.checked": true, "sub.error.checked": true, "sub.hb.begin": true,
-	"sub.werr.begin": true, "sub.update.begin": true, "ds.load": true, "trig.start.begin": true, "trig.init.found": true,
+	"sub.werr.begin": true, "sub.update.begin": true, "ds.load": true, "h.hook": true, "trig.start.begin": true, "trig.init.found": true,
 	"trig.done.begin": true, "shutdown.begin": true, "w.flush.enter": true,
 }
 
 func minePoint(point string) bool {
-	if point == "trig.spawn" { // not yet part of the specification in use
-		return false
-	}
 	return strings.HasPrefix(point, "sub.") || strings.HasPrefix(point, "trig.") || strings.HasPrefix(point, "shutdown.") || strings.HasPrefix(point, "upd.")
 }
 
@@ -553,6 +606,8 @@ func runSchedule(s Schedule, evw *bufio.Writer) (res Result) {
 			return gate.ID{K: "g", I: int(b)}, true
 		case "shutdown.begin":
 			return gate.ID{K: "sh"}, true
+		case "h.hook": // start-up hook of a subscriber that joined an existing trigger (goroutine of its own)
+			return gate.ID{K: "h", I: int(a)}, true
 		}
 		return gate.ID{}, false
 	}
@@ -562,6 +617,13 @@ func runSchedule(s Schedule, evw *bufio.Writer) (res Result) {
 	noPark := map[string]bool{}
 	for _, p := range s.NoPark {
 		noPark[p] = true
+	}
+	// UpdateSubscription runs executeSubscriptionUpdate inline on the source's goroutine: to the specification it is the update actor u(s,e)
+	ctl.Alias = func(cur gate.ID, point string, a, b uint64) (gate.ID, bool) {
+		if (cur.K == "s" || cur.K == "d") && point == "sub.update.begin" {
+			return gate.ID{K: "u", I: int(a), J: int(b) - padBase}, true
+		}
+		return gate.ID{}, false
 	}
 	ctl.Parks = func(id gate.ID, point string) bool {
 		if noPark[point] {
@@ -587,6 +649,12 @@ func runSchedule(s Schedule, evw *bufio.Writer) (res Result) {
 	// every other point (sfi.* sfs.* ld.* ...) is neither recorded nor parked
 	resolve.VerifHook = func(point string, a, b uint64) {
 		if minePoint(point) {
+			if s.Sync && a == 0 && strings.HasPrefix(point, "sub.") {
+				a = 1 // the synchronous call registers with SubscriptionID 0: it is subscriber slot 1
+			}
+			if s.Sync && b == 0 && strings.HasPrefix(point, "trig.start.") {
+				b = 1
+			}
 			ctl.Hook(point, a, b)
 		}
 	}
@@ -596,7 +664,10 @@ func runSchedule(s Schedule, evw *bufio.Writer) (res Result) {
 	rctx, rcancel := context.WithCancel(context.Background())
 	defer rcancel()
 	resolver := newResolver(rctx, rep, errWriter{r})
-	src := source{r}
+	var src resolve.SubscriptionDataSource = source{r}
+	if s.Hooks {
+		src = hookSource{source{r}}
+	}
 	writers := make([]*writer, n)
 	for i, c := range s.Subs {
 		writers[i] = &writer{r: r, slot: i + 1, key: c.Key, fetch: c.Fetch}
@@ -621,13 +692,50 @@ func runSchedule(s Schedule, evw *bufio.Writer) (res Result) {
 		id := gate.ID{K: "c", I: slot}
 		ch := make(chan string, 1)
 		mail[id] = ch
-		sid := resolve.SubscriptionIdentifier{ConnectionID: resolve.ConnectionID(c.Conn), SubscriptionID: int64(slot)}
+		sid := resolve.SubscriptionIdentifier{ConnectionID: resolve.ConnectionID(connBase + c.Conn), SubscriptionID: int64(slot)}
+		isSync := s.Sync && slot == 1
+		cctx, ccancel := context.WithCancel(context.Background())
+		defer ccancel()
+		if isSync {
+			// the client of the synchronous subscription going away
+			xid := gate.ID{K: "x", I: slot}
+			xch := make(chan string, 1)
+			mail[xid] = xch
+			ctl.Go(xid, guard(xid, func() {
+				for {
+					if <-xch != "cancel" {
+						return
+					}
+					busy := false
+					for _, l := range ctl.Live() {
+						busy = busy || (l.K == "u" && l.I == slot)
+					}
+					if busy || ctl.Where(id) == "idle" || ctl.Where(id) == "done" {
+						ctl.Idle() // not while an update of that subscriber is in flight / the call is not in progress
+						continue
+					}
+					ctl.Log("h.cmd", 12, uint64(slot), nil)
+					ccancel()
+					return
+				}
+			}))
+		}
 		ctl.Go(id, guard(id, func() {
 			for {
 				switch <-ch {
 				case "sub":
 					ctl.Log("h.cmd", 1, uint64(slot), nil)
-					err := resolver.AsyncResolveGraphQLSubscription(newCtx(context.Background(), slot, c, s.KV), plan(src, ctl, slot, c, s.KV, s.FK), writers[slot-1], sid)
+					var err error
+					if isSync {
+						err = resolver.ResolveGraphQLSubscription(newCtx(cctx, slot, c, s.KV), plan(src, ctl, slot, c, s.KV, s.FK), writers[slot-1])
+						e := uint64(0)
+						if err != nil {
+							e = 1
+						}
+						ctl.Log("h.ret", uint64(slot), e, nil)
+						return
+					}
+					err = resolver.AsyncResolveGraphQLSubscription(newCtx(context.Background(), slot, c, s.KV), plan(src, ctl, slot, c, s.KV, s.FK), writers[slot-1], sid)
 					e := uint64(0)
 					if err != nil {
 						e = 1
@@ -639,7 +747,7 @@ func runSchedule(s Schedule, evw *bufio.Writer) (res Result) {
 					ctl.Log("h.ret", uint64(slot), 0, nil)
 				case "rmclient":
 					ctl.Log("h.cmd", 3, uint64(c.Conn), nil)
-					_ = resolver.UnsubscribeClient(resolve.ConnectionID(c.Conn))
+					_ = resolver.UnsubscribeClient(resolve.ConnectionID(connBase + c.Conn))
 					ctl.Log("h.ret", uint64(slot), 0, nil)
 				default:
 					return
@@ -689,12 +797,23 @@ func runSchedule(s Schedule, evw *bufio.Writer) (res Result) {
 					case "done":
 						ctl.Log("h.cmd", 8, uint64(slot), nil)
 						u.Done()
+					case "us1", "us2", "us3":
+						t := int(cmd[2] - '0')
+						if t < 1 || t > len(s.Subs) {
+							return
+						}
+						r.mu.Lock()
+						r.nev++
+						e := r.nev
+						r.mu.Unlock()
+						ctl.Log("h.cmd", 11, uint64(slot), map[string]any{"z": uint64(e*10 + t)})
+						u.UpdateSubscription(resolve.SubscriptionIdentifier{ConnectionID: resolve.ConnectionID(connBase + s.Subs[t-1].Conn), SubscriptionID: int64(t)}, payload(key, e))
 					case "cs1", "cs2", "cs3":
 						t := int(cmd[2] - '0')
 						if t < 1 || t > len(s.Subs) {
 							return
 						}
-						target := resolve.SubscriptionIdentifier{ConnectionID: resolve.ConnectionID(s.Subs[t-1].Conn), SubscriptionID: int64(t)}
+						target := resolve.SubscriptionIdentifier{ConnectionID: resolve.ConnectionID(connBase + s.Subs[t-1].Conn), SubscriptionID: int64(t)}
 						mine := false
 						for _, id := range u.Subscriptions() {
 							mine = mine || id == target
@@ -726,8 +845,10 @@ func runSchedule(s Schedule, evw *bufio.Writer) (res Result) {
 	conn := make([]int, n)
 	start := make([]string, n)
 	fetch := make([]bool, n)
+	rerr := make([]bool, n)
+	hookfail := make([]bool, n)
 	for i, c := range s.Subs {
-		keys[i], filt[i], conn[i], fetch[i] = c.Key, c.Filt, c.Conn, c.Fetch
+		keys[i], filt[i], conn[i], fetch[i], rerr[i], hookfail[i] = c.Key, c.Filt, c.Conn, c.Fetch, c.Rerr, c.HookFail
 		start[i] = "ok"
 		if i < len(s.Start) {
 			start[i] = s.Start[i]
@@ -747,8 +868,9 @@ func runSchedule(s Schedule, evw *bufio.Writer) (res Result) {
 	// the trace specification is instantiated with padSlots subscriber slots: unused slots are padded (they never act)
 	for len(keys) < padSlots {
 		keys, filt, conn, start, fetch = append(keys, 1), append(filt, "all"), append(conn, 1), append(start, "ok"), append(fetch, false)
+		rerr, hookfail = append(rerr, false), append(hookfail, false)
 	}
-	emit(mk("reset", map[string]any{"id": s.ID, "n": n, "key": keys, "filt": filt, "conn": conn, "start": start, "fetch": fetch}))
+	emit(mk("reset", map[string]any{"id": s.ID, "n": n, "key": keys, "filt": filt, "conn": conn, "start": start, "fetch": fetch, "rerr": rerr, "hooks": s.Hooks, "hookfail": hookfail, "sync": s.Sync}))
 	cursor := 0
 	flush := func() {
 		evs := ctl.Events()
@@ -756,6 +878,8 @@ func runSchedule(s Schedule, evw *bufio.Writer) (res Result) {
 			e := evs[cursor]
 			x, y := e.A, e.B
 			switch e.Point {
+			case "trig.spawn":
+				x = uint64(keyOf[e.A])
 			case "trig.detach", "trig.fanout", "trig.init", "trig.init.found", "trig.done.begin", "trig.start.begin", "trig.start.end":
 				x = uint64(keyOf[e.A])
 			case "sub.update.begin", "sub.update.end":
@@ -787,15 +911,23 @@ func runSchedule(s Schedule, evw *bufio.Writer) (res Result) {
 				e := evs[k]
 				want, point := 0, ""
 				switch {
+				case e.Point == "sub.add" && e.B == 0 && s.Hooks:
+					want, point = 1, "h.hook"
 				case e.Point == "sub.add" && e.B == 1:
 					want, point = 1, "trig.start.begin"
-				case e.Point == "trig.fanout":
-					want, point = int(e.B), "sub.update.begin"
+				case e.Point == "trig.spawn":
+					// the update goroutines are spawned after this point: as many as the preceding trig.fanout of this actor said
+					for m := k - 1; m >= 0; m-- {
+						if evs[m].Actor == e.Actor && evs[m].Point == "trig.fanout" {
+							want, point = int(evs[m].B), "sub.update.begin"
+							break
+						}
+					}
 				case e.Point == "h.cmd" && e.A == 9:
 					want, point = 1, "shutdown.begin"
 				}
 				for m := k + 1; m < len(evs) && want > 0; m++ {
-					if evs[m].Point == point && (point != "trig.start.begin" || evs[m].B == e.A) {
+					if evs[m].Point == point && (point != "trig.start.begin" || evs[m].B == e.A) && (point != "h.hook" || evs[m].A == e.A) {
 						want--
 					}
 				}
@@ -864,7 +996,7 @@ func runSchedule(s Schedule, evw *bufio.Writer) (res Result) {
 			ctl.Settle()
 			ps := ctl.ParkedActors(false)
 			if len(ps) == 0 {
-				return len(ctl.Live()) == 0
+				return true // nothing left to release: whoever is still there waits for something (a synchronous caller for its completion)
 			}
 			stepActor(ps[0], "ok")
 			flush()
